@@ -398,14 +398,24 @@ fn run_map<const N: usize, const M: usize>(case: &Case) -> Out {
     out.st.checks += 1;
     match r {
         Ok(Ok(())) => {
-            let mut want = vec![Tok::MapStart(Some(len))];
-            for (k, v) in &seq {
-                want.push(Tok::U8(*k));
-                want.push(Tok::U32(*v));
+            // announced length, then exactly len() well-formed entries (any order: the statement
+            // does not fix one), then the end
+            let shape_ok = toks.first() == Some(&Tok::MapStart(Some(len))) && toks.last() == Some(&Tok::MapEnd) && toks.len() == 2 * len + 2;
+            let mut emitted: Vec<(u8, u32)> = Vec::new();
+            let mut well_formed = shape_ok;
+            if shape_ok {
+                for ch in toks[1..toks.len() - 1].chunks(2) {
+                    match ch {
+                        [Tok::U8(k), Tok::U32(v)] => emitted.push((*k, *v)),
+                        _ => well_formed = false,
+                    }
+                }
             }
-            want.push(Tok::MapEnd);
-            if toks != want {
-                fail(format!("serializer saw {toks:?}, expected Some({len}) announced and the {len} iterated entries {want:?}"));
+            let mut want = seq.clone();
+            want.sort_unstable();
+            emitted.sort_unstable();
+            if !well_formed || emitted != want {
+                fail(format!("serializer saw {toks:?}, expected Some({len}) announced and exactly the {len} entries {want:?} (in any order)"));
             }
         }
         other => fail(format!("serialize failed: {other:?}")),
@@ -554,11 +564,13 @@ fn run_set<const N: usize, const M: usize>(case: &Case) -> Out {
     out.st.checks += 1;
     match r {
         Ok(Ok(())) => {
-            let mut want = vec![Tok::SeqStart(Some(len))];
-            want.extend(seq.iter().map(|k| Tok::U16(*k)));
-            want.push(Tok::SeqEnd);
-            if toks != want {
-                fail(format!("serializer saw {toks:?}, expected Some({len}) announced and the {len} iterated elements"));
+            let shape_ok = toks.first() == Some(&Tok::SeqStart(Some(len))) && toks.last() == Some(&Tok::SeqEnd) && toks.len() == len + 2;
+            let mut emitted: Vec<u16> = if shape_ok { toks[1..toks.len() - 1].iter().filter_map(|t| if let Tok::U16(k) = t { Some(*k) } else { None }).collect() } else { vec![] };
+            let mut want = seq.clone();
+            want.sort_unstable();
+            emitted.sort_unstable();
+            if !shape_ok || emitted != want {
+                fail(format!("serializer saw {toks:?}, expected Some({len}) announced and exactly the {len} elements {want:?} (in any order)"));
             }
         }
         other => fail(format!("serialize failed: {other:?}")),
